@@ -41,6 +41,28 @@ CHECKS["C02"] = dict(
    note=TB + "Architecture specifications are my reading of the manuals (reserved bits ignored as the library does). AArch64, Arm, s390x and ppc64 handlers: "
         "being modelled (separate files), until then covered by the repository's own tests only. Custom methods are outside the model.",
    technique="Lean 4 proof (walk = architectural spec, per format) + differential correspondence", design="§6 C02")
+CHECKS["C06"] = dict(
+   text="Lean proof over an arc-level model of cache.c (unused / ghost-probed / probed / precious / ghost-precious arcs + in-flight list; split and the "
+        "partition counters are derived): the invariant (entries partitioned, exactly cap buffers each owned once, cached/in-flight entries own a buffer, "
+        "ghosts none, unused arc shape, one entry per key, references only on live entries) holds after flush and is preserved by every get/insert/put/"
+        "discard for every capacity and history (the full invariant under the put protocol, the weak one unconditionally); the 'cannot happen' arms are "
+        "unreachable; busy iff key absent and pinned+inflight >= cap; referenced entries are never evicted or rewritten; entries keep key and buffer "
+        "while cached. Tie: the real cache.c is compiled into the harness, random protocol-respecting histories at capacities 1..64 are run on it, the "
+        "derived arc view of the real struct cache is compared with the model after every operation, and the invariant, reference counts, hit data and "
+        "busy rule are evaluated on the implementation's own state.",
+   note=TB + "The five-arc reading of the ring is checked, not assumed (the harness derives it from split+counters and also prints the raw links). "
+        "entry_cleanup callbacks are not exercised. A put that drops the last reference of an in-flight entry violates the API protocol (inv_step_counterexample).",
+   technique="Lean 4 proof (invariant by induction over operations) + differential correspondence on full state", design="§6 C06")
+CHECKS["C07"] = dict(
+   text="Lean proofs over a model of pfn.c/bitmap.c and the ELF bit queries: both bit scans return the next set/clear bit for every bitmap (first-byte C "
+        "promotion arithmetic modelled exactly, byte facts by exhaustive kernel-checked decide); regions built from a bitmap are exactly the maximal runs with "
+        "file position = offset + elemsz*rank; binary search, find-next-set, find-next-clear and bulk retrieval over one or several per-file maps return "
+        "what the mapped set says, write nothing outside the (last-first)/8+1 bytes and are mutually consistent; same for ELF segments. Tie: differential "
+        "run of the public kdump_bmp_* API on generated diskdump (1-3 split files in any order, bitmap-capacity boundary) and ELF dumps (unaligned and "
+        "file-less segments), before and after reads in two address spaces, compared with the frame set the dump encodes and with the read status per "
+        "frame; the static scan/region functions are additionally run directly at all four buffer alignments in both bit orders.",
+   note=TB + "SADUMP (MSB0) is covered through the internal-function stream only; qsort of the file maps is trusted to sort.",
+   technique="Lean 4 proof (specification of every query over all bitmaps/segment lists) + differential correspondence", design="§6 C07")
 NOT_YET = {}
 
 def main():
